@@ -130,8 +130,12 @@ impl MemoryManager {
 
     pub fn remove_token(&self, token: *const MemToken) {
         self.update_token(token);
-        let mut inner = self.mem_manager.lock().unwrap();
-        inner.remove_token(token);
+        {
+            let mut inner = self.mem_manager.lock().unwrap();
+            inner.remove_token(token);
+        }
+        // free() try_locks mem_manager to release the pending batch and to start a new cycle:
+        // it must not be called with that lock held, or tokens pile up in wait_to_free
         self.free(token as *mut MemToken, 1);
     }
 
